@@ -786,6 +786,57 @@ def rule_delete_api(chk, prog):
                                        "never freed (nobody else may delete it)" % (q.split("::")[-1], pname, (" (" + g.describe(w) + ")") if w else ""))
 
 
+def rule_point_vectors_filled(chk, prog):
+    """Avoid::Point() leaves x and y unset (by design, tables/init_reviewed.json): a vector built from a size holds indeterminate points."""
+    r = chk.rule("SIZED-POINT-VECTORS-FILLED", "every local std::vector<Avoid::Point> (PointList, std::vector<Vector>) of libavoid that is constructed from "
+                 "a SIZE only holds points with indeterminate coordinates until they are assigned: the function stores to `v[index]` in a loop "
+                 "in which no iteration can end without the store, and whose trip count is the vector's size (from a to b for a vector of "
+                 "size b - a) -- an element that is skipped is read as whatever the heap block held before, so results differ from run to run", floor=2)
+    n = 0
+    for fn in prog.all_functions():
+        if not fn.body or "/libavoid/" not in fn.file:
+            continue
+        for d in fn.nodes():
+            if d.get("k") != "VarDecl" or not str(d.get("t", "")).startswith("std::vector<Avoid::Point") or d.get("init") is None:
+                continue
+            i_ = strip(d["init"])
+            args = [a for a in (i_ or {}).get("ch", []) if a.get("k") != "CXXDefaultArgExpr"]
+            if i_ is None or i_.get("k") != "CXXConstructExpr" or len(args) != 1 or "vector" in str(strip(args[0]).get("t", "")):
+                continue
+            if str(strip_casts(args[0]).get("t", "")).startswith("std::") or "Point" in str(strip_casts(args[0]).get("t", "")):
+                continue
+            n += 1
+            r.count()
+            name, size = d.get("name"), norm(args[0])
+            inst = "%s(%s) in %s" % (name, size, fn.q)
+            g = CFG(fn)
+            stores = [node for lhs, node, op in writes(fn) if op == "=" and norm(lhs).startswith(name + "[")]
+            bad = None
+            if not stores:
+                bad = "no element of the vector is ever assigned by index"
+            else:
+                lps = [a for a in fn.ancestors(stores[0]) if a.get("k") == "ForStmt"]
+                if not lps:
+                    bad = "the elements are not assigned in a loop over the whole vector"
+                else:
+                    lp = lps[0]
+                    skip = g.iteration_can_skip(lp, [s_["id"] for s_ in stores if any(x is s_ for x in walk(lp["body"]))])
+                    init, cond = norm(lp.get("init")), norm(lp.get("cond"))
+                    m_c = re.match(r"^\((\w+) < (.+)\)$", cond)
+                    m_i = re.search(r"VarDecl\((.+)\)\)?$", init) or re.search(r"= (.+)\)$", init)
+                    lo = (m_i.group(1).strip().rstrip(")").strip() if m_i else None)
+                    hi = (m_c.group(2).strip() if m_c else None)
+                    trip_ok = hi is not None and lo is not None and (
+                        (lo in ("0",) and hi == size) or size in ("(%s - %s)" % (hi, lo), "%s - %s" % (hi, lo)))
+                    if skip is not None:
+                        bad = "an iteration of the filling loop can end without assigning its element (%s)" % g.describe(skip)
+                    elif not trip_ok:
+                        bad = "the filling loop runs from `%s` while `%s`, which is not the vector's size `%s`" % (lo, cond, size)
+            (r.bad if bad else r.ok)(inst, fn.loc(d), bad or "")
+    if n < 2:
+        raise AnalysisBroken("sized Point vectors not found (%d): matcher out of date" % n)
+
+
 _VERTEX_NEVER_LISTED = {
     "Avoid::delete_vertex::operator()": "the spanning-tree builder's extraVertices are created with `new VertInf` and never handed to VertInfList::addVertex",
     "Avoid::Obstacle::~Obstacle": "asserts m_active == false: Obstacle::makeInactive has already taken the polygon's vertices off the router's list",
@@ -1053,5 +1104,6 @@ def run(chk):
     chk.guard(rule_connend_deref, chk, prog)
     chk.guard(rule_queued_ends_detached, chk, prog)
     chk.guard(rule_delete_api, chk, prog)
+    chk.guard(rule_point_vectors_filled, chk, prog)
     chk.guard(rule_set_keys_frozen, chk, prog)
     chk.guard(rule_stale_solver_pointer, chk, prog)
